@@ -51,6 +51,8 @@ class IgnoreChecker:
         Returns:
             List of violations not suppressed by ignore directives
         """
+        # The cache only serves one filtering pass: files may change between lint runs
+        self._file_content_cache = {}
         return [v for v in violations if not self._should_ignore(v)]
 
     def _should_ignore(self, violation: Violation) -> bool:
